@@ -147,7 +147,10 @@ def check (prop : String) (inp out : List String) : Verdict :=
     | some (.inst inst), some es, some outs =>
       if es.length != outs.length then .bad "one output per event" else
       let m := modelRun inst {} es
-      let agree := (m.zip outs).all fun (a, b) => cmdsMatch a.cmds b.cmds && a.written == b.written && a.ended == b.ended
+      -- what is written at the very moment the peer disappears is unobservable (and, with signals still queued,
+      -- decided by tokio's random select! order): not compared
+      let agree := ((m.zip outs).zip es).all fun ((a, b), e) =>
+        cmdsMatch a.cmds b.cmds && (isClose e || a.written == b.written) && a.ended == b.ended
       { agree := agree, model := joinSp (m.map showEvOut), specFail := failing (clauses prop inst es outs) }
     | _, _, _ => .bad "session tokens"
   | _ => .bad "session arity"
